@@ -31,6 +31,7 @@ type Args struct {
 	RM             bool
 	RMVal          string // literal value of the rm parameter when it is present but not "true"
 	Redir          string
+	RedirFirst     string // ostart only: a decoy first value of a repeated redir parameter (the library keeps the last)
 	Token          string
 	Code, RCode    string
 	Phone          string
@@ -485,7 +486,9 @@ type routeSpec struct {
 func (m *M) spec(route string, a Args) (routeSpec, url.Values, map[string]string) {
 	q := url.Values{}
 	form := map[string]string{}
-	if a.Redir != "" {
+	if a.Redir != "" && a.RedirFirst != "" && route == "ostart" {
+		q["redir"] = []string{a.RedirFirst, a.Redir}
+	} else if a.Redir != "" {
 		q.Set("redir", a.Redir)
 	}
 	cred := func() {
@@ -886,6 +889,11 @@ func (m *M) HTTP(b, route string, a Args, fault *world.Fault) *world.Result {
 	// ---- observation ----------------------------------------------------------------
 	stop := "-"
 	resp := m.respTok(r)
+	if rt == "nope" && resp == "status:405" {
+		// the shipped router answers methods it has no table for with 405 and methods it knows but has
+		// no such route for with 404; both are "this request did not reach the logout handler"
+		resp = "status:404"
+	}
 	if s := stopTok(r); s != "?" {
 		stop = s
 	}
